@@ -57,7 +57,7 @@ def Denotes (tree : ETree) (cwd : List String) (a : PathArg) (q : List String) :
 def Named (tree : ETree) (cwd : List String) (args : List PathArg) (q : List String) : Prop :=
   ∃ a ∈ args, Denotes tree cwd a q
 
-/-- no name of the tree contains a slash (any real file system) -/
-def slashFree (p : List String) : Prop := ∀ s ∈ p, '/' ∉ s.toList
+/-- every name of the path is non-empty and holds no slash (any real file system) -/
+def goodNames (p : List String) : Prop := ∀ s ∈ p, s ≠ "" ∧ '/' ∉ s.toList
 
 end Spec
